@@ -225,7 +225,7 @@ fn conv_raw_to_proto_large(src: &mut Src) -> Result<(String, usize), String> {
         };
         let shapes = template.iter().flat_map(|t| std::iter::repeat(t.clone()).take(copies)).collect();
         let ni = if base + k > 0 { src.weighted(&[2, 2, 1]) } else { 0 };
-        let insts = (0..ni).map(|j| rawlib::RInst { name: format!("i{}", j), target: src.index(base + k), loc: (src.signed(500), src.signed(500)), o: crate::refmodel::geom::Orient::from_index(src.index(8)), none_angle: src.bool() }).filter(|i| m.cells[i.target].has_layout).collect();
+        let insts = (0..ni).map(|j| rawlib::RInst { name: format!("i{}", j), target: src.index(base + k), loc: (src.signed(500), src.signed(500)), o: crate::refmodel::geom::Orient::from_index(src.index(8)), none_angle: src.bool(), turns: rawlib::gen_turns(src) }).filter(|i| m.cells[i.target].has_layout).collect();
         m.cells.push(rawlib::RCell { name: format!("big{}", k), has_layout: true, shapes, insts, annotations: vec![], abs: None });
     }
     // one cell drawn on two dozen layer / purpose pairs (nothing about a conversion may depend on how many there are)
